@@ -65,7 +65,7 @@ def main():
 
 NOT_YET = {}
 # measured end-to-end runs of the thorough tiers: see DESIGN.md A.7
-THOROUGH_NOT_VALIDATED = {'C08', 'C06', 'C04', 'C01', 'C10'}
+THOROUGH_NOT_VALIDATED = {'C04', 'C01', 'C10'}
 
 if __name__ == '__main__':
     main()
